@@ -2,12 +2,12 @@ package c15
 
 import (
 	"bytes"
-	"sort"
 	"context"
 	"encoding/binary"
 	"errors"
 	"fmt"
 	"reflect"
+	"sort"
 	"strings"
 
 	"github.com/protolambda/zrnt/eth2/beacon/common"
@@ -29,9 +29,9 @@ type libArg struct {
 	raw reflect.Value
 }
 
-func uArg(u uint64) libArg                { return libArg{isU: true, U: u} }
-func vArg(t *refssz.Type, v any) libArg   { return libArg{T: t, V: v} }
-func rawArg(v any) libArg                 { return libArg{raw: reflect.ValueOf(v)} }
+func uArg(u uint64) libArg              { return libArg{isU: true, U: u} }
+func vArg(t *refssz.Type, v any) libArg { return libArg{T: t, V: v} }
+func rawArg(v any) libArg               { return libArg{raw: reflect.ValueOf(v)} }
 func (a libArg) describe() string {
 	switch {
 	case a.isU:
@@ -48,12 +48,12 @@ func (a libArg) describe() string {
 }
 
 var (
-	specType    = reflect.TypeOf((*common.Spec)(nil))
-	hashFnType  = reflect.TypeOf(tree.HashFn(nil))
-	ctxType     = reflect.TypeOf((*context.Context)(nil)).Elem()
-	errorType   = reflect.TypeOf((*error)(nil)).Elem()
-	syncVwType  = reflect.TypeOf((*common.SyncCommitteeView)(nil))
-	epcType     = reflect.TypeOf((*common.EpochsContext)(nil))
+	specType   = reflect.TypeOf((*common.Spec)(nil))
+	hashFnType = reflect.TypeOf(tree.HashFn(nil))
+	ctxType    = reflect.TypeOf((*context.Context)(nil)).Elem()
+	errorType  = reflect.TypeOf((*error)(nil)).Elem()
+	syncVwType = reflect.TypeOf((*common.SyncCommitteeView)(nil))
+	epcType    = reflect.TypeOf((*common.EpochsContext)(nil))
 )
 
 type sszPlain interface {
@@ -315,6 +315,17 @@ func call(spec *common.Spec, recv reflect.Value, row *Row, args []libArg) (out c
 		return
 	}
 	res := m.Call(in)
+	// Aliasing oracle: a setter must store a VALUE. Everything that was passed in by pointer or
+	// slice is overwritten after the call; if the state kept a reference to the caller's memory,
+	// the byte-exact state comparison that follows sees the scribble.
+	for i := range in {
+		if method == "Flatten" {
+			break // Flatten(dst) fills an out-parameter
+		}
+		if t := mt.In(i); t != specType && t != hashFnType && t != ctxType && t != epcType {
+			scribble(in[i], 0)
+		}
+	}
 	if n := len(res); n > 0 && res[n-1].Type().Implements(errorType) {
 		if !res[n-1].IsNil() {
 			out.err = res[n-1].Interface().(error)
@@ -487,4 +498,40 @@ func uncovered(tab *Table, seen *seenTypes) map[string]any {
 		gen[emb] = map[string]any{"methods": sortedKeys(ms), "promoted_into": receivers[emb]}
 	}
 	return map[string]any{"own_methods_not_in_table": own, "generic_ztyp_methods_not_in_table": gen, "in_table_as_not_an_accessor": notInvoked}
+}
+
+// scribble overwrites everything reachable from v through pointers, slices, arrays and struct
+// fields (bounded depth) with different content. Tree-backed views (ztyp) are left alone: they are
+// handles into the state by design, not values.
+func scribble(v reflect.Value, depth int) {
+	if !v.IsValid() || depth > 6 {
+		return
+	}
+	if strings.Contains(v.Type().String(), "view.") || strings.Contains(v.Type().String(), "View") {
+		return
+	}
+	switch v.Kind() {
+	case reflect.Ptr, reflect.Interface:
+		if !v.IsNil() {
+			scribble(v.Elem(), depth+1)
+		}
+	case reflect.Struct:
+		for i := 0; i < v.NumField(); i++ {
+			if v.Type().Field(i).IsExported() {
+				scribble(v.Field(i), depth+1)
+			}
+		}
+	case reflect.Slice, reflect.Array:
+		for i := 0; i < v.Len(); i++ {
+			scribble(v.Index(i), depth+1)
+		}
+	case reflect.Uint8, reflect.Uint16, reflect.Uint32, reflect.Uint64, reflect.Uint:
+		if v.CanSet() {
+			v.SetUint(^v.Uint())
+		}
+	case reflect.Bool:
+		if v.CanSet() {
+			v.SetBool(!v.Bool())
+		}
+	}
 }
